@@ -234,7 +234,7 @@ func (c *MapCodec) readMapEntry(mp, k unsafe.Pointer, data []byte) (int, error) 
 		typedmemclr(unpackEFace(c.rtype.Key()).data, k)
 		n, err := c.keyCodec.Read(data[offset:fieldEnd], k, wt)
 		if err != nil {
-			return 0, fmt.Errorf("failed reading key field of %s. %w", c.rtype.Name(), err)
+			return 0, wrapf(err, "failed reading key field of %s. ", c.rtype.Name())
 		}
 		offset += n
 	} else {
@@ -259,7 +259,7 @@ func (c *MapCodec) readMapEntry(mp, k unsafe.Pointer, data []byte) (int, error) 
 
 		n, err := c.valueCodec.Read(data[offset:fieldEnd], val, wt)
 		if err != nil {
-			return 0, fmt.Errorf("failed reading value field of %s. %w", c.rtype.Name(), err)
+			return 0, wrapf(err, "failed reading value field of %s. ", c.rtype.Name())
 		}
 		offset += n
 	} else {
